@@ -178,7 +178,14 @@ static void *thread_trampoline(void *p) {
     return r;
 }
 int __real_pthread_create(pthread_t *t, const pthread_attr_t *a, void *(*fn)(void *), void *arg);
+int vs_active(void);
+int vs_pthread_create(pthread_t *t, const pthread_attr_t *a, void *(*fn)(void *), void *arg);
+int vs_epoll_wait(int epfd, struct epoll_event *events, int maxevents, int *timer_armed, int64_t *timer_when, void *timerfd_ptr);
+void vs_vtime_advance_to(int64_t t) { vtime_advance_to(t); }
+int64_t vs_vtime_now(void) { return __atomic_load_n(&vnow_ns, __ATOMIC_SEQ_CST); }
+
 int __wrap_pthread_create(pthread_t *t, const pthread_attr_t *a, void *(*fn)(void *), void *arg) {
+    if (vs_active()) return vs_pthread_create(t, a, fn, arg);
     ThreadStart *ts = malloc(sizeof(ThreadStart));
     ts->fn = fn;
     ts->arg = arg;
@@ -201,6 +208,9 @@ static int running_children(void) {
 }
 
 int __wrap_epoll_wait(int epfd, struct epoll_event *events, int maxevents, int timeout) {
+    if (vs_active() && epfd == janet_vm.epoll) {
+        return vs_epoll_wait(epfd, events, maxevents, &timer_armed, &timer_when_ns, &janet_vm.timerfd);
+    }
     if (vtime_on && epfd == janet_vm.epoll) {
         int ready = __real_epoll_wait(epfd, events, maxevents, 0);
         if (ready != 0) return ready;
@@ -453,6 +463,8 @@ static Janet v_double_to_bits(int32_t argc, Janet *argv) {
 
 /* extension points implemented in other harness files */
 void verif_register_more(JanetTable *env);
+void verif_io_init(void);
+void verif_sbx_init(void);
 
 static const JanetReg verif_cfuns[] = {
     {"verif/now", v_now, "(verif/now)\n\nVirtual ms since start."},
@@ -492,11 +504,15 @@ int main(int argc, char **argv) {
             }
         }
     }
+    verif_io_init();
+    verif_sbx_init();
+    vs_active();
     /* Process-level policy of the harness: a write to a closed pipe/socket returns EPIPE
      * (janet raises an error) instead of killing the process with SIGPIPE. */
     signal(SIGPIPE, SIG_IGN);
     const char *e;
     if ((e = getenv("VERIF_VTIME")) && *e == '1') vtime_on = 1;
+    if (getenv("VERIF_SCHED")) vtime_on = 1;   /* the controlled scheduler owns time */
     if ((e = getenv("VERIF_VT_WAIT_MS")) && *e) vt_wait_spins = atoi(e) / 5;
     if ((e = getenv("VERIF_GC")) && *e) {
         if (gc_parse_spec(e)) {
